@@ -110,7 +110,7 @@ def closure(ex, E, name):
                 continue
             seen.add(t.get_id())
             if t.get_id() in ids:
-                raise OutOfSubset("closure of a relation that depends on a loop / comprehension variable")
+                return L.rtc(E, name, params=list(ex.binders))
             if z3.is_quantifier(t):
                 todo.append(t.body())
             elif z3.is_app(t):
